@@ -72,9 +72,7 @@ func (p *Ping) Data() []byte {
 }
 
 func (p *Ping) Serialize(fr *FrameHeader) {
-	if p.ack {
-		fr.SetFlags(fr.Flags().Add(FlagAck))
-	}
+	fr.SetFlags(fr.Flags().with(FlagAck, p.ack))
 
 	fr.setPayload(p.data[:])
 }
